@@ -252,6 +252,28 @@ def gen_module(rng, params):
         out = []
         addr = base
         for k, bs in enumerate(units):
+            if params.get("align_fill_p"):
+                # make later alignment requirements of the unit hold as well:
+                # the block in front gets filler of its own (nops at its
+                # start / a run of zeros), the way a compiler pads - several
+                # aligned blocks per byte interval then survive _fix_alignment
+                first_seen = False
+                pos = 0
+                for bi_, b in enumerate(bs):
+                    if b.get("align") and not first_seen:
+                        first_seen = True  # (the unit's base address takes care of the first one)
+                        pos = 0
+                    elif b.get("align") and first_seen and pos % b["align"] and rng.random() < params["align_fill_p"]:
+                        prev = bs[bi_ - 1]
+                        gap = (-pos) % b["align"]
+                        step = 4 if isa == "arm64" else 1
+                        if not prev.get("cfi") and gap % step == 0:
+                            if prev["kind"] == "code":
+                                prev["items"][0:0] = [{"id": ids("i"), "v": "nop"} for _ in range(gap // step)]
+                            else:
+                                prev["items"].insert(0, {"id": ids("d"), "v": "zero", "n": gap})
+                            pos += gap
+                    pos += _block_size(isa, b)
             size = sum(_block_size(isa, b) for b in bs)
             first_align = next((b["align"] for b in bs if b.get("align")), None)
             if first_align:
@@ -409,6 +431,12 @@ def gen_patch(rng, model, params, world_labels, ids, allow_cf=True, in_data=Fals
     for k in range(n):
         r = rng.random()
         if in_data:
+            if k > 0 and rng.random() < 0.2:
+                # a label between two data items of the patch (a table entry
+                # with a name): it designates the item that follows it
+                nm = f"{tpre}{len(own)}"
+                own.append((nm, True))
+                lines.append({"label": nm, "temp": True})
             r2 = rng.random()
             if r2 < 0.6:
                 nb = rng.randint(1, 6)
@@ -487,7 +515,20 @@ def gen_patch(rng, model, params, world_labels, ids, allow_cf=True, in_data=Fals
         # balanced CFI of the patch's own
         d = rng.choice([8, 16])
         insn_idx = [i for i, l in enumerate(lines) if "label" not in l][1:]
-        if insn_idx:
+        if insn_idx and rng.random() < 0.3:
+            # the state is saved and restored around the patch's own change;
+            # temporary labels between the directives give each its own
+            # (empty) block, which the assembler folds together again - the
+            # order of the directives at that point must survive
+            k = rng.choice(insn_idx)
+            n0 = len(own)
+            own.extend([(f"{tpre}{n0}", True), (f"{tpre}{n0 + 1}", True)])
+            head = [{"label": f"{tpre}{n0}", "temp": True}, {"raw": ".cfi_remember_state"}, {"label": f"{tpre}{n0 + 1}", "temp": True}, {"raw": f".cfi_adjust_cfa_offset {d}"}]
+            if rng.random() < 0.3:
+                head.pop(0)
+            lines[k:k] = head
+            lines.insert(rng.randrange(k + len(head) + 1, len(lines) + 1), {"raw": ".cfi_restore_state"})
+        elif insn_idx:
             # (a directive describes the effect of the instruction in front
             # of it, so the first one follows the patch's first instruction)
             k = rng.choice(insn_idx)
@@ -496,7 +537,9 @@ def gen_patch(rng, model, params, world_labels, ids, allow_cf=True, in_data=Fals
             lines.insert(rng.randrange(k + 2, len(lines) + 1), {"raw": f".cfi_adjust_cfa_offset -{d}"})
     if params.get("patch_align_p", 0.0) and isa != "arm64" and rng.random() < params["patch_align_p"] and lines:
         # an alignment requirement of the patch's own
-        lines.insert(rng.randrange(len(lines)), {"raw": f".align {rng.choice([2, 4, 8, 16])}"})
+        lab_idx = [i for i, l in enumerate(lines) if "label" in l]
+        at = rng.choice(lab_idx) if lab_idx and rng.random() < 0.4 else rng.randrange(len(lines))
+        lines.insert(at, {"raw": f".align {rng.choice([2, 4, 8, 16])}"})
     if rng.random() < 0.15:
         # trailing label: forces a new block after the patch (in a data
         # block: a label between the inserted bytes and the rest)
@@ -506,7 +549,7 @@ def gen_patch(rng, model, params, world_labels, ids, allow_cf=True, in_data=Fals
             # ... in front of the patch's last CFI directive: the directive
             # then belongs to the (empty) block the label opens
             lines.insert(len(lines) - 1, {"label": nm, "temp": True})
-            if allow_cf and code_targets and rng.random() < 0.5:
+            if allow_cf and code_targets and rng.random() < 0.5 and not any(l.get("raw") == ".cfi_remember_state" for l in lines):
                 # ... and the code in front of the label leaves with a jump
                 # (call emulation: the label is the "return address"); the
                 # label's block is empty, unreachable, and carries the
@@ -729,6 +772,24 @@ def ops_allowed(model, sd):
             return False  # a patch must assemble to at least one byte
         lines = lines or []
         adj = [int(l["raw"].split()[-1]) for l in lines if "raw" in l and "cfi_adjust_cfa_offset" in l["raw"]]
+        saved = [l["raw"] for l in lines if "raw" in l and l["raw"] in (".cfi_remember_state", ".cfi_restore_state")]
+        if saved:
+            # remember ; adjust +d ; (at least one instruction) ; restore
+            cf = [l["raw"].split()[0] for l in lines if "raw" in l and l["raw"].startswith(".cfi")]
+            if cf != [".cfi_remember_state", ".cfi_adjust_cfa_offset", ".cfi_restore_state"] or op["k"] == "insfn" or adj[0] < 0:
+                return False
+            ia = next(i for i, l in enumerate(lines) if "raw" in l and "cfi_adjust" in l["raw"])
+            ir_ = next(i for i, l in enumerate(lines) if l.get("raw") == ".cfi_restore_state")
+            if not any("label" not in l and "raw" not in l for l in lines[ia + 1 : ir_]):
+                return False
+            if any(o["k"] in ("del", "delblock", "rep", "delfn") for o in sd["ops"]):
+                return False
+            if any(l.get("v") in ("jmp", "jcc", "call", "ret", "ijmp", "icall") for l in lines):
+                return False
+            i0 = next(i for i, l in enumerate(lines) if l.get("raw") == ".cfi_remember_state")
+            if not any("label" not in l and "raw" not in l for l in lines[:i0]):
+                return False
+            continue
         if adj and (op["k"] == "insfn" or sum(adj) != 0 or len(adj) != 2 or adj[0] < 0):
             return False
         if adj and any(o["k"] in ("del", "delblock", "rep", "delfn") for o in sd["ops"]):
@@ -937,6 +998,15 @@ def gen_scope_session(rng, model, params, index):
             # made earlier and this insert_at meet at one offset)
             off, tid = toks[0] if rng.random() < 0.5 else rng.choice(toks)
             ops.append({"k": "ins", "at": tid, "side": "before", "patch": gen_patch(rng, model, params, wl, ids, allow_cf=False, in_data=sp.kind == "data")})
+    if rng.random() < params.get("scope_insfn_p", 0.0) and params.get("_fmt") and ".text" in model.sections:
+        # a function is added in the same rewrite: the scopes designate the
+        # blocks the module has when the rewrite starts, not the new body
+        body = gen_patch(rng, model, params, wl, ids, allow_cf=False)
+        body["lines"] = [l for l in body["lines"] if "label" not in l and "raw" not in l] or [{"v": "nop"}]
+        body["lines"].append({"v": "ret"})
+        body.pop("constraints", None)
+        body.pop("other", None)
+        ops.insert(rng.randrange(len(ops) + 1), {"k": "insfn", "name": f"nf{index}_s", "patch": body})
     sd = {"ops": ops, "reg_order": list(range(len(ops)))}
     if rng.random() < 0.6:
         # split into passes (order preserved)
